@@ -122,17 +122,17 @@ def classify_subset(item_mask, model_mask, window, times, scn, fe):
         return "subset-shape"
     extra = im & ~model_mask
     missing = model_mask & ~im
-    t = np.array([np.nan if x is None else x for x in times], dtype="float64")
     if fe.startswith("xarray") and scn["table"].get("xr_time") == "var" and im.all() and not model_mask.all():
         return "window-ignored-time-not-coordinate"
+    lo, hi = pl.bound_ns(window, "starting"), pl.bound_ns(window, "ending")
     if extra.any() and not missing.any():
-        if window and window.get("ending") is not None and (t[extra] == window["ending"]).all():
+        if hi is not None and all(times[i] == hi for i in np.flatnonzero(extra)):
             return "extra-row-exactly-at-ending"
         if im.all():
             return "window-ignored"
         return "extra-rows"
     if missing.any() and not extra.any():
-        if window and window.get("starting") is not None and (t[missing] == window["starting"]).all():
+        if lo is not None and all(times[i] == lo for i in np.flatnonzero(missing)):
             return "missing-row-exactly-at-starting"
         return "missing-rows"
     return "rows-misplaced"
@@ -178,10 +178,12 @@ def execute(scn):
     for e in exps["main"] + exps.get("alt", []) + exps.get("added", []) + exps.get("edited", []):
         w = e["window"]
         if w and times:
-            if w.get("ending") is not None and w["ending"] in times:
+            if pl.bound_ns(w, "ending") is not None and pl.bound_ns(w, "ending") in times:
                 bump("row_exactly_at_ending")
-            if w.get("starting") is not None and w["starting"] in times:
+            if pl.bound_ns(w, "starting") is not None and pl.bound_ns(w, "starting") in times:
                 bump("row_exactly_at_starting")
+            if w.get("starting_ns") or w.get("ending_ns"):
+                bump("window_bound_with_nanoseconds")
             if (w.get("starting") is None) != (w.get("ending") is None):
                 bump("half_open_window")
         if e["rows"].sum() == 0:
